@@ -858,12 +858,36 @@ theorem inv_typeExtension {ts o : List Tok} (h : D (.nt .typeExtension) ts o) (h
       (fun ts o hok h => out_ne_block h.nt_inv hok rfl rfl) h.nt_inv
     exact ⟨.inputObject, tb, ob, e1, e2, hb, hne⟩
 
+/-! ### where the recorded position of an item lies -/
+
+/-- `k` is the start offset of one of the tokens between `σ` and `σ'` -/
+def KeyIn (σ σ' : Stream) (k : Nat) : Prop := ∃ us : List Token, σ = Stream.app us σ' ∧ ∃ u ∈ us, u.start = k
+
+theorem KeyIn.head {σ σ' : Stream} {t : Tok} {r : List Tok} (h : Starts σ (t :: r) σ') : KeyIn σ σ' σ.head.start := by
+  obtain ⟨us, h1, h2⟩ := h
+  cases us with
+  | nil => simp at h2
+  | cons u us => exact ⟨u :: us, h1, u, by simp, by rw [h1]; rfl⟩
+
+theorem KeyIn.head' {σ σ' : Stream} {ts : List Tok} (h : Starts σ ts σ') (hne : ts ≠ []) : KeyIn σ σ' σ.head.start := by
+  cases ts with
+  | nil => exact absurd rfl hne
+  | cons t r => exact KeyIn.head h
+
+theorem KeyIn.prefix {σ σ1 σ' : Stream} {ts : List Tok} {k : Nat} (h1 : Starts σ ts σ1) (h2 : KeyIn σ1 σ' k) : KeyIn σ σ' k := by
+  obtain ⟨uA, rfl, _⟩ := h1
+  obtain ⟨uB, rfl, u, hu, hk⟩ := h2
+  exact ⟨uA ++ uB, by rw [Stream.app_append], u, by simp [hu], hk⟩
+
+theorem KeyIn.second {σ σ1 σ' : Stream} {t t' : Tok} {r : List Tok} (h1 : Starts σ [t] σ1) (h2 : Starts σ1 (t' :: r) σ') :
+    KeyIn σ σ' σ1.head.start := KeyIn.prefix h1 (KeyIn.head h2)
+
 /-! ### the parsers of the bodies -/
 
 theorem cpl_scalarBody (n : Nat) (w : String) (tb ob : List Tok) (hok : TsOK tb) (hb : BodyD .scalar tb ob) (a : AS) (σ' : Stream)
     (hs : Starts a.σ (tKw w :: tb) σ') (hfol : FolItem σ') {β : Type} (k : Pos → Name → List Directive → Prog β)
     (R : β → AS → Prop)
-    (hk : ∀ pos nm dirs (b : AS), b.σ = σ' → tName nm :: printDirectives dirs = ob → Fwd (k pos nm dirs) b R) :
+    (hk : ∀ pos nm dirs (b : AS), KeyIn a.σ σ' pos.start → b.σ = σ' → tName nm :: printDirectives dirs = ob → Fwd (k pos nm dirs) b R) :
     Fwd (do
       let _ ← expectKeyword (str w)
       let pos ← peekPos
@@ -873,21 +897,23 @@ theorem cpl_scalarBody (n : Nat) (w : String) (tb ob : List Tok) (hok : TsOK tb)
   obtain ⟨g1, g2, g3, g4, g5, g6, g7, g8⟩ := hfol
   obtain ⟨nm, tds, ods, rfl, rfl, dds⟩ := hb
   obtain ⟨σ1, h1, hs⟩ := hs.cons_single
+  have hs1 := hs
   obtain ⟨σ2, h2, h3⟩ := hs.cons_single
   refine Fwd.bind (fwd_keyword w h1) ?_
   rintro _ b1 hσb1
-  refine Fwd.bind (fwd_peekPos _) ?_
-  rintro pos b2 rfl
+  refine Fwd.bind (fwd_peekPos' _) ?_
+  rintro pos b2 ⟨hpos, rfl⟩
+  have hkey : KeyIn a.σ σ' pos.start := by rw [hpos, hσb1]; exact KeyIn.second h1 hs1
   refine Fwd.bind (fwd_parseName nm (by simpa [hσb1] using h2)) ?_
   rintro nm' b3 ⟨rfl, hσb3⟩
   refine Fwd.bind (cpl_directives true n tds ods hok.tail dds b3 σ' (by rw [hσb3]; exact h3) g1 g2) ?_
   rintro ds' b4 ⟨hds, hσ⟩
-  exact hk pos nm' ds' b4 hσ (by rw [hds])
+  exact hk pos nm' ds' b4 hkey hσ (by rw [hds])
 
 theorem cpl_objBody (n : Nat) (w : String) (tb ob : List Tok) (hok : TsOK tb) (hb : ObjBody tb ob) (a : AS) (σ' : Stream)
     (hs : Starts a.σ (tKw w :: tb) σ') (hfol : FolItem σ') {β : Type}
     (k : Pos → Name → List Name → List Directive → List FieldDef → Prog β) (R : β → AS → Prop)
-    (hk : ∀ pos nm ifs dirs fields (b : AS), b.σ = σ' →
+    (hk : ∀ pos nm ifs dirs fields (b : AS), KeyIn a.σ σ' pos.start → b.σ = σ' →
       tName nm :: (printImplements ifs ++ (printDirectives dirs ++ printBlock printFieldDef fields)) = ob →
       Fwd (k pos nm ifs dirs fields) b R) :
     Fwd (do
@@ -901,6 +927,7 @@ theorem cpl_objBody (n : Nat) (w : String) (tb ob : List Tok) (hok : TsOK tb) (h
   obtain ⟨g1, g2, g3, g4, g5, g6, g7, g8⟩ := hfol
   obtain ⟨nm, ti, oi, tds, ods, tf, of, rfl, rfl, di, dds, df⟩ := hb
   obtain ⟨σ1, h1, hs⟩ := hs.cons_single
+  have hs1 := hs
   obtain ⟨σ2, h2, hs⟩ := hs.cons_single
   rw [Starts.append_iff] at hs
   obtain ⟨σ3, h3, hs⟩ := hs
@@ -919,8 +946,9 @@ theorem cpl_objBody (n : Nat) (w : String) (tb ob : List Tok) (hok : TsOK tb) (h
       (fun u hu => by simp at hu; simp [hu])
   refine Fwd.bind (fwd_keyword w h1) ?_
   rintro _ b1 hσb1
-  refine Fwd.bind (fwd_peekPos _) ?_
-  rintro pos b2 rfl
+  refine Fwd.bind (fwd_peekPos' _) ?_
+  rintro pos b2 ⟨hpos, rfl⟩
+  have hkey : KeyIn a.σ σ' pos.start := by rw [hpos, hσb1]; exact KeyIn.second h1 hs1
   refine Fwd.bind (fwd_parseName nm (by simpa [hσb1] using h2)) ?_
   rintro nm' b3 ⟨rfl, hσb3⟩
   refine Fwd.bind (cpl_implements n ti oi hoki di b3 σ3 (by rw [hσb3]; exact h3) q3.1 (fun _ => q3.2)) ?_
@@ -929,7 +957,7 @@ theorem cpl_objBody (n : Nat) (w : String) (tb ob : List Tok) (hok : TsOK tb) (h
   rintro ds' b5 ⟨hds, hσb5⟩
   refine Fwd.bind (cpl_fieldDefs n tf of hokf df b5 σ' (by rw [hσb5]; exact h5) (fun _ => g3)) ?_
   rintro fs' b6 ⟨hfs, hσ⟩
-  exact hk pos nm' ifs ds' fs' b6 hσ (by rw [hifs, hds, hfs])
+  exact hk pos nm' ifs ds' fs' b6 hkey hσ (by rw [hifs, hds, hfs])
 
 theorem cpl_dirsBlockBody {γ : Type} (B : NT) (kB : Kind) (hkB : kB ≠ .at ∧ kB ≠ .parenL) (P : Prog (List γ)) (prB : List γ → List Tok)
     (swB : ∀ ts o, TsOK ts → D (.opt (.nt B)) ts o → StartsWith [kB] ts)
@@ -938,7 +966,7 @@ theorem cpl_dirsBlockBody {γ : Type} (B : NT) (kB : Kind) (hkB : kB ≠ .at ∧
     (n : Nat) (w : String) (tb ob : List Tok) (hok : TsOK tb) (hb : DirsBlockBody B tb ob) (a : AS) (σ' : Stream)
     (hs : Starts a.σ (tKw w :: tb) σ') (hfol : FolItem σ') {β : Type}
     (k : Pos → Name → List Directive → List γ → Prog β) (R : β → AS → Prop)
-    (hk : ∀ pos nm dirs xs (b : AS), b.σ = σ' → tName nm :: (printDirectives dirs ++ prB xs) = ob → Fwd (k pos nm dirs xs) b R) :
+    (hk : ∀ pos nm dirs xs (b : AS), KeyIn a.σ σ' pos.start → b.σ = σ' → tName nm :: (printDirectives dirs ++ prB xs) = ob → Fwd (k pos nm dirs xs) b R) :
     Fwd (do
       let _ ← expectKeyword (str w)
       let pos ← peekPos
@@ -949,6 +977,7 @@ theorem cpl_dirsBlockBody {γ : Type} (B : NT) (kB : Kind) (hkB : kB ≠ .at ∧
   obtain ⟨g1, g2, g3, g4, g5, g6, g7, g8⟩ := hfol
   obtain ⟨nm, tds, ods, tf, of, rfl, rfl, dds, df⟩ := hb
   obtain ⟨σ1, h1, hs⟩ := hs.cons_single
+  have hs1 := hs
   obtain ⟨σ2, h2, hs⟩ := hs.cons_single
   rw [Starts.append_iff] at hs
   obtain ⟨σ4, h4, h5⟩ := hs
@@ -959,21 +988,22 @@ theorem cpl_dirsBlockBody {γ : Type} (B : NT) (kB : Kind) (hkB : kB ≠ .at ∧
       (fun u hu => by simp at hu; rw [hu]; exact hkB)
   refine Fwd.bind (fwd_keyword w h1) ?_
   rintro _ b1 hσb1
-  refine Fwd.bind (fwd_peekPos _) ?_
-  rintro pos b2 rfl
+  refine Fwd.bind (fwd_peekPos' _) ?_
+  rintro pos b2 ⟨hpos, rfl⟩
+  have hkey : KeyIn a.σ σ' pos.start := by rw [hpos, hσb1]; exact KeyIn.second h1 hs1
   refine Fwd.bind (fwd_parseName nm (by simpa [hσb1] using h2)) ?_
   rintro nm' b3 ⟨rfl, hσb3⟩
   refine Fwd.bind (cpl_directives true n tds ods hokd dds b3 σ4 (by rw [hσb3]; exact h4) q4.1 q4.2) ?_
   rintro ds' b5 ⟨hds, hσb5⟩
   refine Fwd.bind (hP tf of hokf df b5 σ' (by rw [hσb5]; exact h5) ⟨g1, g2, g3, g4, g5, g6, g7, g8⟩) ?_
   rintro xs b6 ⟨hxs, hσ⟩
-  exact hk pos nm' ds' xs b6 hσ (by rw [hds, hxs])
+  exact hk pos nm' ds' xs b6 hkey hσ (by rw [hds, hxs])
 
 theorem cpl_unionBody (n : Nat)
     (w : String) (tb ob : List Tok) (hok : TsOK tb) (hb : DirsBlockBody .unionMemberTypes tb ob) (a : AS) (σ' : Stream)
     (hs : Starts a.σ (tKw w :: tb) σ') (hfol : FolItem σ') {β : Type}
     (k : Pos → Name → List Directive → List Name → Prog β) (R : β → AS → Prop)
-    (hk : ∀ pos nm dirs xs (b : AS), b.σ = σ' → tName nm :: (printDirectives dirs ++ printMembers xs) = ob → Fwd (k pos nm dirs xs) b R) :
+    (hk : ∀ pos nm dirs xs (b : AS), KeyIn a.σ σ' pos.start → b.σ = σ' → tName nm :: (printDirectives dirs ++ printMembers xs) = ob → Fwd (k pos nm dirs xs) b R) :
     Fwd (do
       let _ ← expectKeyword (str w)
       let pos ← peekPos
@@ -990,7 +1020,7 @@ theorem cpl_enumBody (n : Nat)
     (w : String) (tb ob : List Tok) (hok : TsOK tb) (hb : DirsBlockBody .enumValuesDefinition tb ob) (a : AS) (σ' : Stream)
     (hs : Starts a.σ (tKw w :: tb) σ') (hfol : FolItem σ') {β : Type}
     (k : Pos → Name → List Directive → List EnumValDef → Prog β) (R : β → AS → Prop)
-    (hk : ∀ pos nm dirs xs (b : AS), b.σ = σ' → tName nm :: (printDirectives dirs ++ printBlock printEnumVal xs) = ob → Fwd (k pos nm dirs xs) b R) :
+    (hk : ∀ pos nm dirs xs (b : AS), KeyIn a.σ σ' pos.start → b.σ = σ' → tName nm :: (printDirectives dirs ++ printBlock printEnumVal xs) = ob → Fwd (k pos nm dirs xs) b R) :
     Fwd (do
       let _ ← expectKeyword (str w)
       let pos ← peekPos
@@ -1007,7 +1037,7 @@ theorem cpl_inputBody (n : Nat)
     (w : String) (tb ob : List Tok) (hok : TsOK tb) (hb : DirsBlockBody .inputFieldsDefinition tb ob) (a : AS) (σ' : Stream)
     (hs : Starts a.σ (tKw w :: tb) σ') (hfol : FolItem σ') {β : Type}
     (k : Pos → Name → List Directive → List FieldDef → Prog β) (R : β → AS → Prop)
-    (hk : ∀ pos nm dirs xs (b : AS), b.σ = σ' → tName nm :: (printDirectives dirs ++ printBlock printInputField xs) = ob → Fwd (k pos nm dirs xs) b R) :
+    (hk : ∀ pos nm dirs xs (b : AS), KeyIn a.σ σ' pos.start → b.σ = σ' → tName nm :: (printDirectives dirs ++ printBlock printInputField xs) = ob → Fwd (k pos nm dirs xs) b R) :
     Fwd (do
       let _ ← expectKeyword (str w)
       let pos ← peekPos
@@ -1021,8 +1051,8 @@ theorem cpl_inputBody (n : Nat)
     n w tb ob hok hb a σ' hs hfol k R hk
 
 /-- the result of a type-definition parser: description, kind and unparse of the body -/
-def DefRes (desc : Bytes) (k : DefKind) (ob : List Tok) (σ' : Stream) (y : Definition) (a' : AS) : Prop :=
-  y.desc = desc ∧ y.kind = k ∧ printDefBody y = ob ∧ a'.σ = σ'
+def DefRes (desc : Bytes) (k : DefKind) (ob : List Tok) (σ σ' : Stream) (y : Definition) (a' : AS) : Prop :=
+  y.desc = desc ∧ y.kind = k ∧ printDefBody y = ob ∧ KeyIn σ σ' y.pos.start ∧ a'.σ = σ'
 
 theorem printImplements_nil_of_length {ifs : List Name} (h : ifs.length = 0) : printImplements ifs = [] := by
   cases ifs with
@@ -1031,46 +1061,46 @@ theorem printImplements_nil_of_length {ifs : List Name} (h : ifs.length = 0) : p
 
 theorem cpl_scalarDef (n : Nat) (desc : Bytes) (tb ob : List Tok) (hok : TsOK tb) (hb : BodyD .scalar tb ob) (a : AS) (σ' : Stream)
     (hs : Starts a.σ (tKw "scalar" :: tb) σ') (hfol : FolItem σ') :
-    Fwd (parseScalarTypeDefinition n desc) a (DefRes desc .scalar ob σ') := by
+    Fwd (parseScalarTypeDefinition n desc) a (DefRes desc .scalar ob a.σ σ') := by
   unfold parseScalarTypeDefinition
   refine cpl_scalarBody n "scalar" tb ob hok hb a σ' hs hfol _ _ ?_
-  intro pos nm dirs b hσ hob
+  intro pos nm dirs b hkey hσ hob
   refine (Fwd.pure _ _).mono ?_
   rintro y b' ⟨rfl, rfl⟩
-  exact ⟨rfl, rfl, by simpa [printDefBody] using hob, hσ⟩
+  exact ⟨rfl, rfl, by simpa [printDefBody] using hob, hkey, hσ⟩
 
 theorem cpl_scalarExt (n : Nat) (tb ob : List Tok) (hok : TsOK tb) (hb : BodyD .scalar tb ob) (hne : ob.tail ≠ []) (a : AS)
     (σ' : Stream) (hs : Starts a.σ (tKw "scalar" :: tb) σ') (hfol : FolItem σ') :
-    Fwd (parseScalarTypeExtension n) a (DefRes [] .scalar ob σ') := by
+    Fwd (parseScalarTypeExtension n) a (DefRes [] .scalar ob a.σ σ') := by
   unfold parseScalarTypeExtension
   refine cpl_scalarBody n "scalar" tb ob hok hb a σ' hs hfol _ _ ?_
-  intro pos nm dirs b hσ hob
+  intro pos nm dirs b hkey hσ hob
   refine Fwd.ite_neg (by
     intro hc
     apply hne
     rw [← hob, List.eq_nil_of_length_eq_zero hc]; rfl) ((Fwd.pure _ _).mono ?_)
   rintro y b' ⟨rfl, rfl⟩
-  exact ⟨rfl, rfl, by simpa [printDefBody] using hob, hσ⟩
+  exact ⟨rfl, rfl, by simpa [printDefBody] using hob, hkey, hσ⟩
 
 theorem cpl_objectDef (n : Nat) (desc : Bytes) (tb ob : List Tok) (hok : TsOK tb) (hb : BodyD .object tb ob) (a : AS) (σ' : Stream)
     (hs : Starts a.σ (tKw "type" :: tb) σ') (hfol : FolItem σ') :
-    Fwd (parseObjectTypeDefinition n desc) a (DefRes desc .object ob σ') := by
+    Fwd (parseObjectTypeDefinition n desc) a (DefRes desc .object ob a.σ σ') := by
   unfold parseObjectTypeDefinition
   refine cpl_objBody n "type" tb ob hok hb a σ' hs hfol _ _ ?_
-  intro pos nm ifs dirs fields b hσ hob
+  intro pos nm ifs dirs fields b hkey hσ hob
   refine (Fwd.pure _ _).mono ?_
   rintro y b' ⟨rfl, rfl⟩
-  exact ⟨rfl, rfl, by simpa [printDefBody] using hob, hσ⟩
+  exact ⟨rfl, rfl, by simpa [printDefBody] using hob, hkey, hσ⟩
 
 theorem cpl_interfaceDef (n : Nat) (desc : Bytes) (tb ob : List Tok) (hok : TsOK tb) (hb : BodyD .interface tb ob) (a : AS)
     (σ' : Stream) (hs : Starts a.σ (tKw "interface" :: tb) σ') (hfol : FolItem σ') :
-    Fwd (parseInterfaceTypeDefinition n desc) a (DefRes desc .interface ob σ') := by
+    Fwd (parseInterfaceTypeDefinition n desc) a (DefRes desc .interface ob a.σ σ') := by
   unfold parseInterfaceTypeDefinition
   refine cpl_objBody n "interface" tb ob hok hb a σ' hs hfol _ _ ?_
-  intro pos nm ifs dirs fields b hσ hob
+  intro pos nm ifs dirs fields b hkey hσ hob
   refine (Fwd.pure _ _).mono ?_
   rintro y b' ⟨rfl, rfl⟩
-  exact ⟨rfl, rfl, by simpa [printDefBody] using hob, hσ⟩
+  exact ⟨rfl, rfl, by simpa [printDefBody] using hob, hkey, hσ⟩
 
 theorem obj_extends {nm : Name} {ifs : List Name} {dirs : List Directive} {fields : List FieldDef} {ob : List Tok}
     (hob : tName nm :: (printImplements ifs ++ (printDirectives dirs ++ printBlock printFieldDef fields)) = ob)
@@ -1082,23 +1112,23 @@ theorem obj_extends {nm : Name} {ifs : List Name} {dirs : List Directive} {field
 
 theorem cpl_objectExt (n : Nat) (tb ob : List Tok) (hok : TsOK tb) (hb : BodyD .object tb ob) (hne : ob.tail ≠ []) (a : AS)
     (σ' : Stream) (hs : Starts a.σ (tKw "type" :: tb) σ') (hfol : FolItem σ') :
-    Fwd (parseObjectTypeExtension n) a (DefRes [] .object ob σ') := by
+    Fwd (parseObjectTypeExtension n) a (DefRes [] .object ob a.σ σ') := by
   unfold parseObjectTypeExtension
   refine cpl_objBody n "type" tb ob hok hb a σ' hs hfol _ _ ?_
-  intro pos nm ifs dirs fields b hσ hob
+  intro pos nm ifs dirs fields b hkey hσ hob
   refine Fwd.ite_neg (obj_extends hob hne) ((Fwd.pure _ _).mono ?_)
   rintro y b' ⟨rfl, rfl⟩
-  exact ⟨rfl, rfl, by simpa [printDefBody] using hob, hσ⟩
+  exact ⟨rfl, rfl, by simpa [printDefBody] using hob, hkey, hσ⟩
 
 theorem cpl_interfaceExt (n : Nat) (tb ob : List Tok) (hok : TsOK tb) (hb : BodyD .interface tb ob) (hne : ob.tail ≠ []) (a : AS)
     (σ' : Stream) (hs : Starts a.σ (tKw "interface" :: tb) σ') (hfol : FolItem σ') :
-    Fwd (parseInterfaceTypeExtension n) a (DefRes [] .interface ob σ') := by
+    Fwd (parseInterfaceTypeExtension n) a (DefRes [] .interface ob a.σ σ') := by
   unfold parseInterfaceTypeExtension
   refine cpl_objBody n "interface" tb ob hok hb a σ' hs hfol _ _ ?_
-  intro pos nm ifs dirs fields b hσ hob
+  intro pos nm ifs dirs fields b hkey hσ hob
   refine Fwd.ite_neg (obj_extends hob hne) ((Fwd.pure _ _).mono ?_)
   rintro y b' ⟨rfl, rfl⟩
-  exact ⟨rfl, rfl, by simpa [printDefBody] using hob, hσ⟩
+  exact ⟨rfl, rfl, by simpa [printDefBody] using hob, hkey, hσ⟩
 
 theorem block_extends {γ : Type} {nm : Name} {dirs : List Directive} {xs : List γ} {prB : List γ → List Tok} {ob : List Tok}
     (hnil : prB [] = []) (hob : tName nm :: (printDirectives dirs ++ prB xs) = ob) (hne : ob.tail ≠ []) :
@@ -1110,62 +1140,385 @@ theorem block_extends {γ : Type} {nm : Name} {dirs : List Directive} {xs : List
 
 theorem cpl_unionDef (n : Nat) (desc : Bytes) (tb ob : List Tok) (hok : TsOK tb) (hb : BodyD .union tb ob) (a : AS) (σ' : Stream)
     (hs : Starts a.σ (tKw "union" :: tb) σ') (hfol : FolItem σ') :
-    Fwd (parseUnionTypeDefinition n desc) a (DefRes desc .union ob σ') := by
+    Fwd (parseUnionTypeDefinition n desc) a (DefRes desc .union ob a.σ σ') := by
   unfold parseUnionTypeDefinition
   refine cpl_unionBody n "union" tb ob hok hb a σ' hs hfol _ _ ?_
-  intro pos nm dirs xs b hσ hob
+  intro pos nm dirs xs b hkey hσ hob
   refine (Fwd.pure _ _).mono ?_
   rintro y b' ⟨rfl, rfl⟩
-  exact ⟨rfl, rfl, by simpa [printDefBody] using hob, hσ⟩
+  exact ⟨rfl, rfl, by simpa [printDefBody] using hob, hkey, hσ⟩
 
 theorem cpl_unionExt (n : Nat) (tb ob : List Tok) (hok : TsOK tb) (hb : BodyD .union tb ob) (hne : ob.tail ≠ []) (a : AS)
     (σ' : Stream) (hs : Starts a.σ (tKw "union" :: tb) σ') (hfol : FolItem σ') :
-    Fwd (parseUnionTypeExtension n) a (DefRes [] .union ob σ') := by
+    Fwd (parseUnionTypeExtension n) a (DefRes [] .union ob a.σ σ') := by
   unfold parseUnionTypeExtension
   refine cpl_unionBody n "union" tb ob hok hb a σ' hs hfol _ _ ?_
-  intro pos nm dirs xs b hσ hob
+  intro pos nm dirs xs b hkey hσ hob
   refine Fwd.ite_neg (block_extends rfl hob hne) ((Fwd.pure _ _).mono ?_)
   rintro y b' ⟨rfl, rfl⟩
-  exact ⟨rfl, rfl, by simpa [printDefBody] using hob, hσ⟩
+  exact ⟨rfl, rfl, by simpa [printDefBody] using hob, hkey, hσ⟩
 
 theorem cpl_enumDef (n : Nat) (desc : Bytes) (tb ob : List Tok) (hok : TsOK tb) (hb : BodyD .enum tb ob) (a : AS) (σ' : Stream)
     (hs : Starts a.σ (tKw "enum" :: tb) σ') (hfol : FolItem σ') :
-    Fwd (parseEnumTypeDefinition n desc) a (DefRes desc .enum ob σ') := by
+    Fwd (parseEnumTypeDefinition n desc) a (DefRes desc .enum ob a.σ σ') := by
   unfold parseEnumTypeDefinition
   refine cpl_enumBody n "enum" tb ob hok hb a σ' hs hfol _ _ ?_
-  intro pos nm dirs xs b hσ hob
+  intro pos nm dirs xs b hkey hσ hob
   refine (Fwd.pure _ _).mono ?_
   rintro y b' ⟨rfl, rfl⟩
-  exact ⟨rfl, rfl, by simpa [printDefBody] using hob, hσ⟩
+  exact ⟨rfl, rfl, by simpa [printDefBody] using hob, hkey, hσ⟩
 
 theorem cpl_enumExt (n : Nat) (tb ob : List Tok) (hok : TsOK tb) (hb : BodyD .enum tb ob) (hne : ob.tail ≠ []) (a : AS)
     (σ' : Stream) (hs : Starts a.σ (tKw "enum" :: tb) σ') (hfol : FolItem σ') :
-    Fwd (parseEnumTypeExtension n) a (DefRes [] .enum ob σ') := by
+    Fwd (parseEnumTypeExtension n) a (DefRes [] .enum ob a.σ σ') := by
   unfold parseEnumTypeExtension
   refine cpl_enumBody n "enum" tb ob hok hb a σ' hs hfol _ _ ?_
-  intro pos nm dirs xs b hσ hob
+  intro pos nm dirs xs b hkey hσ hob
   refine Fwd.ite_neg (block_extends rfl hob hne) ((Fwd.pure _ _).mono ?_)
   rintro y b' ⟨rfl, rfl⟩
-  exact ⟨rfl, rfl, by simpa [printDefBody] using hob, hσ⟩
+  exact ⟨rfl, rfl, by simpa [printDefBody] using hob, hkey, hσ⟩
 
 theorem cpl_inputDef (n : Nat) (desc : Bytes) (tb ob : List Tok) (hok : TsOK tb) (hb : BodyD .inputObject tb ob) (a : AS)
     (σ' : Stream) (hs : Starts a.σ (tKw "input" :: tb) σ') (hfol : FolItem σ') :
-    Fwd (parseInputObjectTypeDefinition n desc) a (DefRes desc .inputObject ob σ') := by
+    Fwd (parseInputObjectTypeDefinition n desc) a (DefRes desc .inputObject ob a.σ σ') := by
   unfold parseInputObjectTypeDefinition
   refine cpl_inputBody n "input" tb ob hok hb a σ' hs hfol _ _ ?_
-  intro pos nm dirs xs b hσ hob
+  intro pos nm dirs xs b hkey hσ hob
   refine (Fwd.pure _ _).mono ?_
   rintro y b' ⟨rfl, rfl⟩
-  exact ⟨rfl, rfl, by simpa [printDefBody] using hob, hσ⟩
+  exact ⟨rfl, rfl, by simpa [printDefBody] using hob, hkey, hσ⟩
 
 theorem cpl_inputExt (n : Nat) (tb ob : List Tok) (hok : TsOK tb) (hb : BodyD .inputObject tb ob) (hne : ob.tail ≠ []) (a : AS)
     (σ' : Stream) (hs : Starts a.σ (tKw "input" :: tb) σ') (hfol : FolItem σ') :
-    Fwd (parseInputObjectTypeExtension n) a (DefRes [] .inputObject ob σ') := by
+    Fwd (parseInputObjectTypeExtension n) a (DefRes [] .inputObject ob a.σ σ') := by
   unfold parseInputObjectTypeExtension
   refine cpl_inputBody n "input" tb ob hok hb a σ' hs hfol _ _ ?_
-  intro pos nm dirs xs b hσ hob
+  intro pos nm dirs xs b hkey hσ hob
   refine Fwd.ite_neg (block_extends rfl hob hne) ((Fwd.pure _ _).mono ?_)
   rintro y b' ⟨rfl, rfl⟩
-  exact ⟨rfl, rfl, by simpa [printDefBody] using hob, hσ⟩
+  exact ⟨rfl, rfl, by simpa [printDefBody] using hob, hkey, hσ⟩
+
+/-! ### dispatch on the keyword: type definitions -/
+
+theorem cpl_typeSystemDefinition (n : Nat) (desc : Bytes) (k : DefKind) (tb ob : List Tok) (hok : TsOK tb) (hb : BodyD k tb ob)
+    (a : AS) (σ' : Stream) (hs : Starts a.σ (DefKind.keyword k :: tb) σ') (hfol : FolItem σ') :
+    Fwd (parseTypeSystemDefinition n desc) a (DefRes desc k ob a.σ σ') := by
+  have hhead := hs.head
+  have hk : a.σ.head.kind = .name := by
+    rw [← show (Tok.ofToken a.σ.head).kind = a.σ.head.kind from rfl, hhead]; exact (keyword_value k).1
+  have hv : a.σ.head.value = (DefKind.keyword k).value := by
+    rw [← show (Tok.ofToken a.σ.head).value = a.σ.head.value from rfl, hhead]
+  unfold parseTypeSystemDefinition
+  refine Fwd.bind (fwd_peek a) ?_
+  rintro tok a1 ⟨rfl, rfl⟩
+  refine Fwd.ite_neg (by simp [hk]) ?_
+  rw [hv]
+  cases k with
+  | scalar => exact Fwd.ite_pos rfl (cpl_scalarDef n desc tb ob hok hb { pk := true, σ := a.σ, cnt := a.cnt } σ' hs hfol)
+  | object =>
+    exact Fwd.ite_neg (by decide) (Fwd.ite_pos rfl
+      (cpl_objectDef n desc tb ob hok hb { pk := true, σ := a.σ, cnt := a.cnt } σ' hs hfol))
+  | interface =>
+    exact Fwd.ite_neg (by decide) (Fwd.ite_neg (by decide) (Fwd.ite_pos rfl
+      (cpl_interfaceDef n desc tb ob hok hb { pk := true, σ := a.σ, cnt := a.cnt } σ' hs hfol)))
+  | union =>
+    exact Fwd.ite_neg (by decide) (Fwd.ite_neg (by decide) (Fwd.ite_neg (by decide) (Fwd.ite_pos rfl
+      (cpl_unionDef n desc tb ob hok hb { pk := true, σ := a.σ, cnt := a.cnt } σ' hs hfol))))
+  | «enum» =>
+    exact Fwd.ite_neg (by decide) (Fwd.ite_neg (by decide) (Fwd.ite_neg (by decide) (Fwd.ite_neg (by decide) (Fwd.ite_pos rfl
+      (cpl_enumDef n desc tb ob hok hb { pk := true, σ := a.σ, cnt := a.cnt } σ' hs hfol)))))
+  | inputObject =>
+    exact Fwd.ite_neg (by decide) (Fwd.ite_neg (by decide) (Fwd.ite_neg (by decide) (Fwd.ite_neg (by decide)
+      (Fwd.ite_neg (by decide) (Fwd.ite_pos rfl
+        (cpl_inputDef n desc tb ob hok hb { pk := true, σ := a.σ, cnt := a.cnt } σ' hs hfol))))))
+
+/-! ### schema definitions and extensions -/
+
+theorem ts_ne_directives {c : Bool} {ts o : List Tok} (h : D (.nt (.directives c)) ts o) (hok : TsOK ts) : ts ≠ [] := by
+  obtain ⟨parts, hne, rfl, rfl, hp⟩ := h.nt_inv.plus_parts
+  cases parts with
+  | nil => exact absurd rfl hne
+  | cons p r =>
+    obtain ⟨nm, ta, oa, e, _, _⟩ := inv_directive (hp p (by simp)) (hok.of_flatMap p (by simp))
+    simp [List.flatMap_cons, e]
+
+theorem inv_schemaDef {ts o : List Tok} (h : D (.nt .schemaDefinition) ts o) :
+    ∃ tD oD tds ods tbk obk, ts = tD ++ tKw "schema" :: (tds ++ tbk) ∧ o = oD ++ tKw "schema" :: (ods ++ obk) ∧
+      D (.opt (.nt .description)) tD oD ∧ D (.opt (.nt (.directives true))) tds ods ∧
+      D (.seq (Grammar.kind .braceL) (.seq (.plus (.nt .rootOperationTypeDefinition)) (Grammar.kind .braceR))) tbk obk := by
+  obtain ⟨t1, t2, o1, o2, rfl, rfl, d1, d2⟩ := h.nt_inv.seq_inv'
+  obtain ⟨t3, t4, o3, o4, rfl, rfl, d3, d4⟩ := d2.seq_inv'
+  obtain ⟨t5, t6, o5, o6, rfl, rfl, d5, d6⟩ := d4.seq_inv'
+  obtain ⟨rfl, rfl⟩ := kw_inv d3
+  exact ⟨t1, o1, t5, o5, t6, o6, by simp, by simp, d1, d5, d6⟩
+
+theorem printBlock_of_ne {α : Type} {f : α → List Tok} {xs : List α} {o : List Tok} (h : printBlock f xs = o) (hne : o ≠ []) :
+    tP .braceL :: xs.flatMap f ++ [tP .braceR] = o := by
+  cases xs with
+  | nil => exact absurd h.symm hne
+  | cons x r => simpa [printBlock] using h
+
+theorem cpl_schemaDefinition (n : Nat) (desc : Bytes) (tds ods tbk obk : List Tok) (hok : TsOK (tds ++ tbk))
+    (dds : D (.opt (.nt (.directives true))) tds ods)
+    (dbk : D (.seq (Grammar.kind .braceL) (.seq (.plus (.nt .rootOperationTypeDefinition)) (Grammar.kind .braceR))) tbk obk)
+    (a : AS) (σ' : Stream) (hs : Starts a.σ (tKw "schema" :: (tds ++ tbk)) σ') :
+    Fwd (parseSchemaDefinition n desc) a (fun y a' =>
+      printSchemaDef y = printDesc desc ++ tKw "schema" :: (ods ++ obk) ∧ KeyIn a.σ σ' y.pos.start ∧ a'.σ = σ') := by
+  obtain ⟨σ1, h1, hs⟩ := hs.cons_single
+  have hs1 := hs
+  rw [Starts.append_iff] at hs
+  obtain ⟨σ2, h2, h3⟩ := hs
+  obtain ⟨parts, hpne, etbk, eobk, _⟩ := inv_block dbk hok.right rfl rfl
+  have k3 : σ2.head.kind = .braceL := by rw [etbk] at h3; exact h3.head_kind
+  have hne1 : tds ++ tbk ≠ [] := by rw [etbk]; simp
+  have hobk : obk ≠ [] := by rw [eobk]; simp
+  unfold parseSchemaDefinition
+  refine Fwd.bind (fwd_keyword "schema" h1) ?_
+  rintro _ b1 hσ1
+  refine Fwd.bind (fwd_peekPos' _) ?_
+  rintro pos b2 ⟨hpos, rfl⟩
+  have hkey : KeyIn a.σ σ' pos.start := by rw [hpos, hσ1]; exact KeyIn.prefix h1 (KeyIn.head' hs1 hne1)
+  refine Fwd.bind (cpl_directives true n tds ods hok.left dds _ σ2 (by simpa [hσ1] using h2)
+    (by rw [k3]; decide) (by rw [k3]; decide)) ?_
+  rintro ds' b3 ⟨hds, hσ3⟩
+  refine Fwd.bind (fwd_peek b3) ?_
+  rintro t b4 ⟨rfl, rfl⟩
+  refine Fwd.ite_neg (by rw [hσ3, k3]; simp) (Fwd.bind (cpl_opTypes n tbk obk hok.right (.inr dbk) _ σ' (by simpa [hσ3] using h3)
+    (fun h => by rw [etbk] at h; simp at h)) ?_)
+  rintro os' b5 ⟨hos, hσ⟩
+  refine (Fwd.pure _ _).mono ?_
+  rintro y b6 ⟨rfl, rfl⟩
+  refine ⟨?_, hkey, hσ⟩
+  have := printBlock_of_ne hos hobk
+  simp only [printSchemaDef, hds]
+  rw [← this]
+  simp
+
+theorem inv_schemaExt {ts o : List Tok} (h : D (.nt .schemaExtension) ts o) (hok : TsOK ts) :
+    ∃ tds ods tbk obk, ts = tKw "extend" :: tKw "schema" :: (tds ++ tbk) ∧ o = tKw "extend" :: tKw "schema" :: (ods ++ obk) ∧
+      D (.opt (.nt (.directives true))) tds ods ∧
+      ((tbk = [] ∧ obk = []) ∨
+        D (.seq (Grammar.kind .braceL) (.seq (.plus (.nt .rootOperationTypeDefinition)) (Grammar.kind .braceR))) tbk obk) ∧
+      ods ++ obk ≠ [] ∧ tds ++ tbk ≠ [] := by
+  rcases h.nt_inv.alt_inv with h | h
+  · obtain ⟨t1, t2, o1, o2, rfl, rfl, d1, d2⟩ := h.seq_inv'
+    obtain ⟨t3, t4, o3, o4, rfl, rfl, d3, d4⟩ := d2.seq_inv'
+    obtain ⟨t5, t6, o5, o6, rfl, rfl, d5, d6⟩ := d4.seq_inv'
+    obtain ⟨rfl, rfl⟩ := kw_inv d1
+    obtain ⟨rfl, rfl⟩ := kw_inv d3
+    obtain ⟨parts, _, e1, e2, _⟩ := inv_block d6 hok.tail.tail.right.right rfl rfl
+    exact ⟨t5, o5, t6, o6, rfl, rfl, d5, .inr d6, by rw [e2]; simp, by rw [e1]; simp⟩
+  · obtain ⟨t1, t2, o1, o2, rfl, rfl, d1, d2⟩ := h.seq_inv'
+    obtain ⟨t3, t4, o3, o4, rfl, rfl, d3, d4⟩ := d2.seq_inv'
+    obtain ⟨rfl, rfl⟩ := kw_inv d1
+    obtain ⟨rfl, rfl⟩ := kw_inv d3
+    have h1 := out_ne_directives d4 hok.tail.tail
+    have h2 := ts_ne_directives d4 hok.tail.tail
+    exact ⟨t4, o4, [], [], by simp, by simp, .optSome d4, .inl ⟨rfl, rfl⟩, by simpa using h1, by simpa using h2⟩
+
+theorem cpl_schemaExtension (n : Nat) (tds ods tbk obk : List Tok) (hok : TsOK (tds ++ tbk))
+    (dds : D (.opt (.nt (.directives true))) tds ods)
+    (dbk : (tbk = [] ∧ obk = []) ∨
+      D (.seq (Grammar.kind .braceL) (.seq (.plus (.nt .rootOperationTypeDefinition)) (Grammar.kind .braceR))) tbk obk)
+    (hne : ods ++ obk ≠ []) (hne' : tds ++ tbk ≠ []) (a : AS) (σ' : Stream)
+    (hs : Starts a.σ (tKw "schema" :: (tds ++ tbk)) σ') (hfol : FolItem σ') :
+    Fwd (parseSchemaExtension n) a (fun y a' =>
+      printSchemaExt y = tKw "extend" :: tKw "schema" :: (ods ++ obk) ∧ KeyIn a.σ σ' y.pos.start ∧ a'.σ = σ') := by
+  obtain ⟨g1, g2, g3, g4, g5, g6, g7, g8⟩ := hfol
+  obtain ⟨σ1, h1, hs⟩ := hs.cons_single
+  have hs1 := hs
+  rw [Starts.append_iff] at hs
+  obtain ⟨σ2, h2, h3⟩ := hs
+  have q2 : σ2.head.kind ≠ .at ∧ σ2.head.kind ≠ .parenL :=
+    fol_mid h3 (sw_optBlock dbk hok.right rfl rfl) (fun u => u.kind ≠ .at ∧ u.kind ≠ .parenL) ⟨g1, g2⟩
+      (fun u hu => by simp at hu; simp [hu])
+  unfold parseSchemaExtension
+  refine Fwd.bind (fwd_keyword "schema" h1) ?_
+  rintro _ b1 hσ1
+  refine Fwd.bind (fwd_peekPos' _) ?_
+  rintro pos b2 ⟨hpos, rfl⟩
+  have hkey : KeyIn a.σ σ' pos.start := by rw [hpos, hσ1]; exact KeyIn.prefix h1 (KeyIn.head' hs1 hne')
+  refine Fwd.bind (cpl_directives true n tds ods hok.left dds _ σ2 (by simpa [hσ1] using h2) q2.1 q2.2) ?_
+  rintro ds' b3 ⟨hds, hσ3⟩
+  refine Fwd.bind (cpl_opTypes n tbk obk hok.right dbk b3 σ' (by rw [hσ3]; exact h3) (fun _ => g3)) ?_
+  rintro os' b4 ⟨hos, hσ⟩
+  refine Fwd.ite_neg (by
+    intro hc
+    apply hne
+    rw [← hds, ← hos, List.eq_nil_of_length_eq_zero hc.1, List.eq_nil_of_length_eq_zero hc.2]
+    rfl) ?_
+  refine (Fwd.pure _ _).mono ?_
+  rintro y b5 ⟨rfl, rfl⟩
+  exact ⟨by simp [printSchemaExt, hds, hos], hkey, hσ⟩
+
+/-! ### directive definitions -/
+
+theorem inv_directiveDef {ts o : List Tok} (h : D (.nt .directiveDefinition) ts o) (hok : TsOK ts) :
+    ∃ tD oD nm ta oa trep tl ol, ts = tD ++ tKw "directive" :: tP .at :: tName nm :: (ta ++ (trep ++ tKw "on" :: tl)) ∧
+      o = oD ++ tKw "directive" :: tP .at :: tName nm :: (oa ++ (trep ++ tKw "on" :: ol)) ∧
+      (trep = [] ∨ trep = [tKw "repeatable"]) ∧ D (.opt (.nt .description)) tD oD ∧
+      D (.opt (.nt .argumentsDefinition)) ta oa ∧ D (.nt .directiveLocations) tl ol := by
+  obtain ⟨t1, t2, o1, o2, rfl, rfl, d1, d2⟩ := h.nt_inv.seq_inv'
+  obtain ⟨t3, t4, o3, o4, rfl, rfl, d3, d4⟩ := d2.seq_inv'
+  obtain ⟨t5, t6, o5, o6, rfl, rfl, d5, d6⟩ := d4.seq_inv'
+  obtain ⟨t7, t8, o7, o8, rfl, rfl, d7, d8⟩ := d6.seq_inv'
+  obtain ⟨t9, t10, o9, o10, rfl, rfl, d9, d10⟩ := d8.seq_inv'
+  obtain ⟨t11, t12, o11, o12, rfl, rfl, d11, d12⟩ := d10.seq_inv'
+  obtain ⟨t13, t14, o13, o14, rfl, rfl, d13, d14⟩ := d12.seq_inv'
+  obtain ⟨rfl, rfl⟩ := kw_inv d3
+  obtain ⟨rfl, rfl⟩ := punct_inv d5 hok.right.right.left rfl
+  obtain ⟨nm, rfl, rfl⟩ := name_inv d7
+  obtain ⟨rfl, rfl⟩ := kw_inv d13
+  rcases d11.opt_inv with ⟨rfl, rfl⟩ | d11
+  · exact ⟨t1, o1, nm, t9, o9, [], t14, o14, by simp, by simp, .inl rfl, d1, d9, d14⟩
+  · obtain ⟨rfl, rfl⟩ := kw_inv d11
+    exact ⟨t1, o1, nm, t9, o9, [tKw "repeatable"], t14, o14, by simp, by simp, .inr rfl, d1, d9, d14⟩
+
+theorem cpl_directiveDefinition (n : Nat) (desc : Bytes) (nm : Name) (ta oa trep tl ol : List Tok)
+    (hok : TsOK (ta ++ (trep ++ tKw "on" :: tl))) (hrep : trep = [] ∨ trep = [tKw "repeatable"])
+    (da : D (.opt (.nt .argumentsDefinition)) ta oa) (dl : D (.nt .directiveLocations) tl ol) (a : AS) (σ' : Stream)
+    (hs : Starts a.σ (tKw "directive" :: tP .at :: tName nm :: (ta ++ (trep ++ tKw "on" :: tl))) σ')
+    (hfol : σ'.head.kind ≠ .pipe) :
+    Fwd (parseDirectiveDefinition n desc) a (fun y a' =>
+      printDirectiveDef y = printDesc desc ++ tKw "directive" :: tP .at :: tName nm :: (oa ++ (trep ++ tKw "on" :: ol)) ∧
+      KeyIn a.σ σ' y.pos.start ∧ a'.σ = σ') := by
+  obtain ⟨σ1, h1, hs⟩ := hs.cons_single
+  obtain ⟨σ2, h2, hs⟩ := hs.cons_single
+  have hs2 := hs
+  obtain ⟨σ3, h3, hs⟩ := hs.cons_single
+  rw [Starts.append_iff] at hs
+  obtain ⟨σ4, h4, hs⟩ := hs
+  rw [Starts.append_iff] at hs
+  obtain ⟨σ5, h5, hs⟩ := hs
+  obtain ⟨σ6, h6, h7⟩ := hs.cons_single
+  have hon : σ5.head.kind = .name ∧ σ5.head.value = kwOn := by
+    obtain ⟨u, hσu, hu⟩ := h6.single
+    rw [hσu]; exact ⟨ofToken_kind hu, ofToken_value hu⟩
+  have hk4 : σ4.head.kind = .name := by
+    rcases hrep with rfl | rfl
+    · rw [Starts.nil_iff] at h5; rw [h5]; exact hon.1
+    · exact h5.head_kind
+  rw [parseDirectiveDefinition_eq]
+  refine Fwd.bind (fwd_keyword "directive" h1) ?_
+  rintro _ b1 hσ1
+  refine Fwd.bind (fwd_punct .at (by rw [hσ1]; exact h2)) ?_
+  rintro _ b2 hσ2
+  refine Fwd.bind (fwd_peekPos' _) ?_
+  rintro pos b3 ⟨hpos, rfl⟩
+  have hkey : KeyIn a.σ σ' pos.start := by rw [hpos, hσ2]; exact KeyIn.prefix h1 (KeyIn.prefix h2 (KeyIn.head hs2))
+  refine Fwd.bind (fwd_parseName nm (by simpa [hσ2] using h3)) ?_
+  rintro nm' b4 ⟨rfl, hσ4⟩
+  refine Fwd.bind (cpl_argDefs n ta oa hok.left da b4 σ4 (by rw [hσ4]; exact h4) (fun _ => by rw [hk4]; decide)) ?_
+  rintro as' b5 ⟨has, hσ5⟩
+  refine Fwd.bind (fwd_peek b5) ?_
+  rintro pk b6 ⟨rfl, rfl⟩
+  have tailFwd : ∀ (rep : Bool) (b : AS), b.σ = σ5 → Fwd (directiveTail n desc pos nm' as' rep) b
+      (fun y a' => printDirectiveDef y = printDesc desc ++ tKw "directive" :: tP .at :: tName nm' ::
+        (oa ++ ((if rep then [tKw "repeatable"] else []) ++ tKw "on" :: ol)) ∧ y.pos = pos ∧ a'.σ = σ') := by
+    intro rep b hb
+    unfold directiveTail
+    refine Fwd.bind (fwd_keyword "on" (by rw [hb]; exact h6)) ?_
+    rintro _ c1 hc1
+    refine Fwd.bind (cpl_directiveLocations n tl ol hok.right.right.tail dl c1 σ' (by rw [hc1]; exact h7) hfol) ?_
+    rintro ls c2 ⟨hls, hσ⟩
+    refine (Fwd.pure _ _).mono ?_
+    rintro y c3 ⟨rfl, rfl⟩
+    exact ⟨by simp [printDirectiveDef, has, hls], rfl, hσ⟩
+  rcases hrep with rfl | rfl
+  · rw [Starts.nil_iff] at h5
+    subst h5
+    refine Fwd.ite_neg (by
+      rw [hσ5]; intro hc
+      rw [hon.2] at hc
+      exact absurd hc.2 (by decide)) ?_
+    refine (tailFwd false _ (by simp [hσ5])).mono ?_
+    rintro y a' ⟨hy, hp, hσ⟩
+    exact ⟨by simpa using hy, by rw [hp]; exact hkey, hσ⟩
+  · obtain ⟨u, hσu, hu⟩ := h5.single
+    have hku : u.kind = .name := ofToken_kind hu
+    have hvu : u.value = kwRepeatable := ofToken_value hu
+    refine Fwd.ite_pos (by rw [hσ5, hσu]; exact ⟨hku, hvu⟩) (Fwd.bind
+      (fwd_skip_yes (a := { pk := true, σ := b5.σ, cnt := b5.cnt }) (t := u) (σ' := σ5) .name (by simp [hσ5, hσu]) hku) ?_)
+    rintro _ b7 ⟨_, rfl⟩
+    refine (tailFwd true _ rfl).mono ?_
+    rintro y a' ⟨hy, hp, hσ⟩
+    exact ⟨by simpa using hy, by rw [hp]; exact hkey, hσ⟩
+
+/-! ### extensions -/
+
+/-- what one top-level item contributes: an item whose unparse is `o`, recorded at one of its tokens -/
+def ItemRes (doc : SchemaDoc) (o : List Tok) (σ σ' : Stream) (y : SchemaDoc) (a' : AS) : Prop :=
+  ∃ it, y = doc.add it ∧ (sItem it).2 = o ∧ KeyIn σ σ' (sItem it).1 ∧ a'.σ = σ'
+
+theorem cpl_typeSystemExtension (n : Nat) (doc : SchemaDoc) (ts o : List Tok) (hok : TsOK ts) (hd : D (.nt .typeSystemExtension) ts o)
+    (a : AS) (σ' : Stream) (hs : Starts a.σ ts σ') (hfol : FolItem σ') :
+    Fwd (parseTypeSystemExtension n doc) a (ItemRes doc o a.σ σ') := by
+  unfold parseTypeSystemExtension
+  rcases hd.nt_inv.alt_inv with hse | hte
+  · obtain ⟨tds, ods, tbk, obk, rfl, rfl, dds, dbk, hne, hne'⟩ := inv_schemaExt hse hok
+    obtain ⟨σ1, h1, h2⟩ := hs.cons_single
+    refine Fwd.bind (fwd_keyword "extend" h1) ?_
+    rintro _ b1 hσ1
+    refine Fwd.bind (fwd_peek b1) ?_
+    rintro t b2 ⟨rfl, rfl⟩
+    have hv : b1.σ.head.value = kwSchema := by
+      rw [hσ1]
+      obtain ⟨σ2, h3, _⟩ := h2.cons_single
+      obtain ⟨u, hσu, hu⟩ := h3.single
+      rw [hσu]; exact ofToken_value hu
+    refine Fwd.ite_pos hv (Fwd.bind (cpl_schemaExtension n tds ods tbk obk hok.tail.tail dds dbk hne hne' _ σ'
+      (by simpa [hσ1] using h2) hfol) ?_)
+    rintro sd b3 ⟨hsd, hkey, hσ⟩
+    refine (Fwd.pure _ _).mono ?_
+    rintro y b4 ⟨rfl, rfl⟩
+    refine ⟨.schemaExt sd, rfl, hsd, ?_, hσ⟩
+    simp only [sItem]
+    exact KeyIn.prefix h1 (by simpa [hσ1] using hkey)
+  · obtain ⟨k, tb, ob, rfl, rfl, hb, hne⟩ := inv_typeExtension hte hok
+    obtain ⟨σ1, h1, h2⟩ := hs.cons_single
+    refine Fwd.bind (fwd_keyword "extend" h1) ?_
+    rintro _ b1 hσ1
+    refine Fwd.bind (fwd_peek b1) ?_
+    rintro t b2 ⟨rfl, rfl⟩
+    have hv : b1.σ.head.value = (DefKind.keyword k).value := by
+      rw [hσ1, ← show (Tok.ofToken σ1.head).value = σ1.head.value from rfl, h2.head]
+    rw [hv]
+    have hs2 : Starts ({ pk := true, σ := b1.σ, cnt := b1.cnt } : AS).σ (DefKind.keyword k :: tb) σ' := by
+      simpa [hσ1] using h2
+    have fin : ∀ (p : Prog Definition), Fwd p { pk := true, σ := b1.σ, cnt := b1.cnt } (DefRes [] k ob b1.σ σ') →
+        Fwd (p >>= fun x => Pure.pure { doc with extensions := doc.extensions ++ [x] }) { pk := true, σ := b1.σ, cnt := b1.cnt }
+          (ItemRes doc (tKw "extend" :: DefKind.keyword k :: ob) a.σ σ') := by
+      intro p hp
+      refine Fwd.bind hp ?_
+      rintro x b3 ⟨hdesc, hkind, hbody, hkey, hσ⟩
+      refine (Fwd.pure _ _).mono ?_
+      rintro y b4 ⟨rfl, rfl⟩
+      refine ⟨.extension x, rfl, ?_, ?_, hσ⟩
+      · simp [sItem, printExtension, hkind, hbody]
+      · simp only [sItem]
+        exact KeyIn.prefix h1 (by rw [← hσ1]; exact hkey)
+    have hokb : TsOK tb := hok.tail.tail
+    cases k with
+    | scalar =>
+      refine Fwd.ite_neg (by decide) (Fwd.ite_pos rfl (fin _ ?_))
+      exact cpl_scalarExt n tb ob hokb hb hne _ σ' hs2 hfol
+    | object =>
+      refine Fwd.ite_neg (by decide) (Fwd.ite_neg (by decide) (Fwd.ite_pos rfl (fin _ ?_)))
+      exact cpl_objectExt n tb ob hokb hb hne _ σ' hs2 hfol
+    | interface =>
+      refine Fwd.ite_neg (by decide) (Fwd.ite_neg (by decide) (Fwd.ite_neg (by decide) (Fwd.ite_pos rfl (fin _ ?_))))
+      exact cpl_interfaceExt n tb ob hokb hb hne _ σ' hs2 hfol
+    | union =>
+      refine Fwd.ite_neg (by decide) (Fwd.ite_neg (by decide) (Fwd.ite_neg (by decide) (Fwd.ite_neg (by decide)
+        (Fwd.ite_pos rfl (fin _ ?_)))))
+      exact cpl_unionExt n tb ob hokb hb hne _ σ' hs2 hfol
+    | «enum» =>
+      refine Fwd.ite_neg (by decide) (Fwd.ite_neg (by decide) (Fwd.ite_neg (by decide) (Fwd.ite_neg (by decide)
+        (Fwd.ite_neg (by decide) (Fwd.ite_pos rfl (fin _ ?_))))))
+      exact cpl_enumExt n tb ob hokb hb hne _ σ' hs2 hfol
+    | inputObject =>
+      refine Fwd.ite_neg (by decide) (Fwd.ite_neg (by decide) (Fwd.ite_neg (by decide) (Fwd.ite_neg (by decide)
+        (Fwd.ite_neg (by decide) (Fwd.ite_neg (by decide) (Fwd.ite_pos rfl (fin _ ?_)))))))
+      exact cpl_inputExt n tb ob hokb hb hne _ σ' hs2 hfol
 
 end Gql.Parser
